@@ -38,6 +38,7 @@ type engineB struct {
 }
 
 var engineBProps = map[string]*engineB{
+	"C04": {design: "4/C04"},
 	"C10": {design: "4/C10"},
 	"C11": {design: "4/C11"},
 	"C17": {design: "4/C17"},
@@ -142,10 +143,10 @@ func buildB(root, id string, eb *engineB) (string, error) {
 	if err := run(root, &out, "go", "build", "-o", vinstr, "./cmd/vinstr"); err != nil {
 		return "", fmt.Errorf("build vinstr: %v\n%s", err, out.String())
 	}
-	if eb.probe {
-		if err := genProbe(root, work); err != nil {
-			return "", err
-		}
+	// the runner links every scenario package, so the generated probe
+	// service is always (re)produced from the current tree
+	if err := genProbe(root, work); err != nil {
+		return "", err
 	}
 	args := []string{"-out", ov}
 	if len(eb.fine) > 0 {
@@ -174,10 +175,13 @@ func genProbe(root, work string) error {
 		return fmt.Errorf("build probegen: %v\n%s", err, out.String())
 	}
 	out.Reset()
-	if err := run(root, &out, gen, filepath.Join(root, "scenarios/probe/probe.idl"), filepath.Join(root, "scenarios/probe")); err != nil {
+	gdir := filepath.Join(work, "gen")
+	os.MkdirAll(gdir, 0o755)
+	if err := run(root, &out, gen, filepath.Join(root, "scenarios/probe/probe.idl"), gdir); err != nil {
 		return fmt.Errorf("probegen: %v\n%s", err, out.String())
 	}
-	return nil
+	// install atomically (several checks may run at the same time)
+	return os.Rename(filepath.Join(gdir, "probe_stub_gen.go"), filepath.Join(root, "scenarios/probe/probe_stub_gen.go"))
 }
 
 type scenInfo struct {
